@@ -93,7 +93,15 @@ META = {
         assumptions=COMMON_ASSUME + ["one RSA-4096 key is generated by the service per server name and worker"],
         deadline_quick=900, deadline_thorough=3400,
     ),
+    "C02": dict(
+        rule="raw listener built through the verif hook (unprivileged epoll + AF_UNIX socketpair, interface lo, caller-supplied ARP/route tables). Part A (bubble): every frame of the field-boundary product is injected synchronously into the real ethernet.Parse -> ipv4.Parse -> handleTCP/UDP/ICMP/ARP dispatch: every truncation (14..len) and paddings to 60/64/1500/1514/1600 of 6 well-formed frames; 5 ethertypes x payload 0..40; IHL 0..15 x 12 total-length values around header/buffer bounds x protocols {1,2,6,17,0,255} x transport lengths (quick 18 values, thorough 0..40,512,1460,1580); TCP data offset 0..15 x 16 segment lengths; the first three option bytes over {0,1,2,3,4,5,8,254,255}^3 x data offset {6,7}, each also cut after 1-3 option bytes; one-byte option tails; TCP flags 0..63 x payload {0,1,7} in 3 connection states; UDP length field {0,7,8,actual-1,actual,actual+1,65535} x 7 ports x payload 0..40; ICMP 0..12 bytes; ARP 0..40 bytes; ARP cache / route table with and without an entry for the peer (4 configurations) x SYN/ACK/data/FIN on 4 ports; floods of 1/1000/65534/65535/65536 (thorough 70000) half-open connection attempts with the clock standing still. Oracle: no panic on the dispatch path (the receive loop has no recover), and a well-formed UDP probe to an undecoded port still yields its event after every group. Part B (real clock): every 3rd frame of the product (thorough: all), two floods and the table configurations are written to the socketpair of the real Start() loop in the worker process; the process must survive and the probe event must arrive (waited for up to 60 s).",
+        bounds_quick="transport lengths 18 values; floods to 65536; loop replay of 1/3 of the frames",
+        bounds_thorough="transport lengths 0..40,512,1460,1580; flood 70000; loop replay of all frames",
+        assumptions=COMMON_ASSUME + ["frames shorter than 14 bytes are never delivered by the kernel", "the ARP switch cannot be set from the configuration file, so ARP frames must be ignored", "VerifInject (hook) copies the dispatch chain of the Start() loop; part B replays frames through the real loop"],
+        deadline_quick=900, deadline_thorough=3400,
+        parts={"loop": 8},
+    ),
 }
 
 NOT_APPLICABLE = {}
-HOOK_COMMITS = []
+HOOK_COMMITS = ["85f692541ea4dfe30d2f7985a9487ffdd59a796e"]
